@@ -11,6 +11,7 @@ for ALL op sequences (induction on the list) and ALL schedules of ANY number of 
 schedule).
 -/
 import MetricsVerif.Proofs.Registry
+import MetricsVerif.Generated.SourceFacts
 
 namespace MetricsVerif.C06
 open MetricsVerif.Registry
@@ -462,6 +463,105 @@ theorem racing_creators_agree {ko : KeyOps K} (L : KeyLaws ko) (count : Nat) (hc
   rw [hs1, hs2] at key
   exact (toOut_inj key).symm
 
+/-! ## sweeps (clear / retain / visit) racing threads that hold a shard lock — the lock-aware machine -/
+
+/-- **a sweep waits**: at a shard whose lock another thread holds in a conflicting mode the sweep neither touches
+    the registry nor moves on — it stays before that shard (`RwLock::read/write` block; no shard is skipped) -/
+theorem sweep_waits (c : LCall K) (hold : Bool) (others : List Lock) (fuel : Nat) (r : Reg K)
+    (acc : List (K × Nat)) (kd : Kind) (idx : Nat)
+    (h : mustWait others { kd, idx, write := c.sweepWrite } = true) :
+    sweepRun c hold others (fuel + 1) r acc kd idx = (r, acc, .waiting kd idx) := by
+  simp [sweepRun, h]
+
+/-- the section of `clear` on a shard leaves that shard empty -/
+theorem clear_section_empties (r : Reg K) (kd : Kind) (idx : Nat) (sh : Shard K) (acc : List (K × Nat))
+    (hlt : idx < (r.get kd).length) :
+    ((sweepSection (.clear : LCall K) r kd idx sh acc).1.get kd).getD idx [] = [] := by
+  simp [sweepSection, Reg.setIdx, get_set, List.getD, getElem?_setAt, hlt]
+
+/-- one token of any thread of the lock-aware machine keeps the registry invariant, whatever locks the others hold -/
+theorem lstepThread_inv {ko : KeyOps K} (L : KeyLaws ko) (r : Reg K) (hinv : Inv ko r) (others : List Lock)
+    (t : LThread K) : Inv ko (lstepThread ko r others t).1 := by
+  unfold lstepThread
+  repeat' split
+  all_goals first
+    | exact hinv
+    | exact (writeSection_refines L r hinv _ _).1
+    | exact sub_inv hinv (delete_sub ko r _ _ (hinv.len _))
+    | exact sub_inv hinv (sweepRun_sub _ _ _ _ _ _ _ _)
+
+theorem lstep_inv {ko : KeyOps K} (L : KeyLaws ko) (s : LSys K) (hinv : Inv ko s.reg) (tid : Nat) :
+    Inv ko (lstep ko s tid).reg := by
+  unfold lstep
+  split
+  · exact hinv
+  · exact lstepThread_inv L s.reg hinv _ _
+
+/-- **no duplicate entry under sweeps and held locks, ever**: creators, getters, deleters, `clear`, `retain_*`,
+    `visit_*` on any number of threads, callbacks parked under shard locks, sweeps waiting for them — after every
+    schedule each kind holds at most one entry per key class, placed by its hash, storages not shared -/
+theorem lrun_inv {ko : KeyOps K} (L : KeyLaws ko) (count : Nat) (hc : 0 < count) (progs : List (List (LCall K)))
+    (sched : List Nat) : Inv ko (lrun ko (LSys.init count progs) sched).reg := by
+  have : ∀ (sched : List Nat) (s : LSys K), Inv ko s.reg → Inv ko (lrun ko s sched).reg := by
+    intro sched
+    induction sched with
+    | nil => intro s h; exact h
+    | cons tid rest ih => intro s h; exact ih _ (lstep_inv L s h tid)
+  exact this sched _ (new_inv ko count hc)
+
+theorem lrun_unique {ko : KeyOps K} (L : KeyLaws ko) (count : Nat) (hc : 0 < count) (progs : List (List (LCall K)))
+    (sched : List Nat) (kd : Kind) (k : K) :
+    (entries (lrun ko (LSys.init count progs) sched).reg kd).countP (fun e => ko.eqv k e.key) ≤ 1 :=
+  countP_le_one L k _ (entries_pairwise L _ (lrun_inv L count hc progs sched) kd)
+
+/-- a run of sweep sections never adds an entry and never makes a storage: what is registered afterwards was
+    registered before (shard by shard a sublist), so a sweep cannot resurrect or duplicate anything -/
+theorem sweep_only_removes (c : LCall K) (hold : Bool) (others : List Lock) (fuel : Nat) (r : Reg K)
+    (acc : List (K × Nat)) (kd : Kind) (idx : Nat) : Sub (sweepRun c hold others fuel r acc kd idx).1 r :=
+  sweepRun_sub c hold others fuel r acc kd idx
+
+/-! ## source facts (tools/extract.py, regenerated from the repository on every run) -/
+
+/-- **every lock section waits**: `clear` walks counters, gauges, histograms and takes `write()` on each shard;
+    `visit_*` take `read()`, `retain_*` and `delete_*` `write()`, `get_*` `read()`, `get_or_create_*` `read()` then
+    `write()` — the modes of the model (`LCall.sweepWrite`, `lstepThread`) — and there is no `try_read` /
+    `try_write` anywhere in the file: no function can skip a shard that is in use -/
+theorem src_locks_block :
+    Generated.reg_clear_loops = ["counters", "gauges", "histograms"]
+    ∧ Generated.reg_clear_locks = ["write", "write", "write"]
+    ∧ Generated.reg_visit_locks = [["read"], ["read"], ["read"]]
+    ∧ Generated.reg_retain_locks = [["write"], ["write"], ["write"]]
+    ∧ Generated.reg_delete_locks = [["write"], ["write"], ["write"]]
+    ∧ Generated.reg_get_locks = [["read"], ["read"], ["read"]]
+    ∧ Generated.reg_goc_locks = [["read", "write"], ["read", "write"], ["read", "write"]]
+    ∧ Generated.reg_try_locks = [] := by decide
+
+/-- the lock modes of the source are the ones the model's sweeps take -/
+theorem src_sweep_modes :
+    (Generated.reg_clear_locks.all (· == "write")) = (LCall.clear : LCall Nat).sweepWrite
+    ∧ (Generated.reg_retain_locks.all (·.all (· == "write"))) = (LCall.retain .counter (fun _ _ => true) false : LCall Nat).sweepWrite
+    ∧ (Generated.reg_visit_locks.all (·.all (· == "write"))) = (LCall.visit .counter false : LCall Nat).sweepWrite := by decide
+
+/-- **the per-kind copies are one text**: the counter / gauge / histogram versions of `get_or_create_*`, `get_*`,
+    `delete_*`, `visit_*`, `retain_*` and of the shard selection differ only in the kind's name, so the model's
+    single `writeSection` / `readSection` / `delete` / sweep section speaks for all three -/
+theorem src_kind_copies_identical :
+    Generated.reg_goc_copies_identical = true ∧ Generated.reg_get_copies_identical = true
+    ∧ Generated.reg_delete_copies_identical = true ∧ Generated.reg_visit_copies_identical = true
+    ∧ Generated.reg_retain_copies_identical = true ∧ Generated.reg_shard_for_copies_identical = true := by decide
+
+/-- **shard layout**: the shard count is `available_parallelism` (1 if unknown) rounded up to a power of two — never
+    0 —, both constructors make exactly that many shards per kind and set `shard_mask = shard_count - 1`, and a
+    shard is selected by `hash & shard_mask` (`Reg.new`, `shardOf`) -/
+theorem src_shard_layout :
+    Generated.reg_shard_count_body
+      = "{ std::thread::available_parallelism().map(|x| x.get()).unwrap_or(1).next_power_of_two() }"
+    ∧ Generated.reg_ctor_masks = ["shard_count - 1", "shard_count - 1"]
+    ∧ Generated.reg_ctor_takes = ["shard_count shard_count shard_count", "shard_count shard_count shard_count"]
+    ∧ Generated.reg_shard_index_exprs
+      = ["hash as usize & self.shard_mask", "hash as usize & self.shard_mask", "hash as usize & self.shard_mask"] := by
+  decide
+
 /-! ## non-vacuity -/
 
 /-- keys `(class, how it was built)`; classes 0 and 3 share their FULL hash, so they also share a shard -/
@@ -499,5 +599,17 @@ example :
     let s := run exKo (Sys.init 2 [[.goc .counter (0, 0)], [.goc .counter (0, 1)], [.delete .counter (0, 2)]])
       [0, 1, 2, 0, 0, 2, 1, 1]
     s.threads.map (·.results) = [[.id 0], [.id 1], [.bool true]] ∧ s.reg.next = 2 := by decide
+
+/-- lock-aware machine: a recorder is parked inside `op` under the read lock of its metric's shard; `clear`
+    empties the shards before it and WAITS there (that entry and the one in the shard behind it are still
+    registered, clear has not returned); when the
+    recorder leaves, clear takes the shard and finishes: nothing is left -/
+example :
+    let r0 := (runOps exKo (Reg.new 4) [.goc .counter (1, 0), .goc .counter (2, 0)]).1
+    let s0 : LSys (Nat × Nat) := { LSys.init 4 [[.clear], [.goc .counter (1, 1)]] with reg := r0 }
+    let s1 := lrun exKo s0 [1, 1, 0, 0]
+    let s2 := lrun exKo s1 [1, 0]
+    (s1.threads.map (·.pc) = [.sweep .counter 1, .gocOp 0] ∧ visit s1.reg .counter = [((1, 0), 0), ((2, 0), 1)]
+      ∧ s2.threads.map (·.pc) = [.done, .done] ∧ visit s2.reg .counter = []) := by decide
 
 end MetricsVerif.C06
